@@ -190,18 +190,30 @@ def record_trace(rng: random.Random, big: bool):
             cuts = set(rng.sample(range(1, len(stream)), min(rng.randrange(0, 80), len(stream) - 1)))
     edges = [0] + sorted(cuts) + [len(stream)]
     conn, helper, tr = make_helper()
+    # A consumer that fails on some packets (the exception escapes data_received): the packet it failed on counts as
+    # handed over - once; the complete frames behind it are handed over by the following calls, nothing twice,
+    # nothing lost.  Only on streams without a stray byte.
+    raise_at: list[int] = []
+    if frames and frames[-1]["plen"] >= 0 and rng.random() < 0.3:
+        raise_at = sorted(rng.sample(range(1, len(sent) + 1), min(len(sent), rng.randrange(1, 6))))
+        conn.raise_at = set(raise_at)
     events = []
-    for a, b in zip(edges, edges[1:]):
+    pieces = [stream[a:b] for a, b in zip(edges, edges[1:])]
+    if raise_at:
+        pieces += [b""] * (len(raise_at) + 1)  # calls without new bytes: they hand over what a failure left behind
+    for piece in pieces:
         kind = rng.choice(list(KINDS))
         exc = None
         try:
-            feed(helper, kind, stream[a:b])
+            feed(helper, kind, piece)
+        except devices.ConsumerFailed:
+            pass
         except Exception as ex:  # noqa: BLE001
             exc = repr(ex)
         nd = len(conn.packets)
         events.append(
             {
-                "n": b - a,
+                "n": len(piece),
                 "nd": nd,
                 "exact": exc is None and conn.packets == sent[:nd],
                 "err": _err_class(conn, helper),
@@ -210,7 +222,7 @@ def record_trace(rng: random.Random, big: bool):
         )
         if tr.closed:
             break  # a closed transport receives nothing more
-    return {"frames": frames, "events": events}, stream, edges
+    return {"frames": frames, "events": events, "raise": raise_at}, stream, edges
 
 
 def run(ctx):
